@@ -577,6 +577,9 @@ func (p *PairV2) DirectionSortPrice() int {
 func (p *PairV2) MarkDirtyOrders(order *Limit) {
 	p.markDirtyOrders()
 
+	// the sorted lists are a cache: they are rebuilt on the next access
+	p.sellOrders.ids, p.buyOrders.ids = nil, nil
+
 	if order.isEmpty() {
 		p.setDeletedSellOrderIDs(order.id)
 	} else if !order.isKeepRate() {
@@ -596,19 +599,6 @@ func (p *PairV2) sellOrderIDs() []uint32 {
 	return p.buyOrders.ids
 }
 
-func (p *PairV2) isUnsortedSellOrder(id uint32) bool {
-	ds := p.unsortedSellOrderIDs()
-	ds.mu.RLock()
-	defer ds.mu.RUnlock()
-
-	_, ok := ds.list[id]
-	return ok
-}
-
-func (p *PairV2) hasUnsortedSellOrders() bool {
-	return len(p.unsortedSellOrderIDs().list) > 0
-}
-
 func (p *PairV2) unsortedSellOrderIDs() *orderDirties {
 	if p.isSorted() {
 		return p.unsortedDirtySellOrders
@@ -626,10 +616,6 @@ func (p *PairV2) setUnsortedSellOrder(id uint32) {
 	ds.mu.Lock()
 	defer ds.mu.Unlock()
 	delete(ds.list, id)
-}
-
-func (p *PairV2) hasDeletedSellOrders() bool {
-	return len(p.deletedSellOrderIDs().list) > 0
 }
 
 func (p *PairV2) setDeletedSellOrderIDs(id uint32) {
@@ -670,21 +656,6 @@ func (p *PairV2) deletedBuyOrderIDs() *orderDirties {
 	return p.deletedSellOrders
 }
 
-func (p *Pair) loadedSellOrderIDsSorted() []uint32 {
-	if p.isSorted() {
-		return p.loadedSellOrderIDs()
-	}
-	return p.loadedBuyOrderIDs()
-}
-
-func (p *PairV2) loadedSellOrderIDs() []uint32 {
-	return p.loadedSellOrders.ids
-}
-
-func (p *PairV2) loadedBuyOrderIDs() []uint32 {
-	return p.loadedBuyOrders.ids
-}
-
 func (p *PairV2) setSellOrders(orders []uint32) {
 	if p.isSorted() {
 		p.sellOrders.ids = orders
@@ -693,15 +664,6 @@ func (p *PairV2) setSellOrders(orders []uint32) {
 	p.buyOrders.ids = orders
 	return
 }
-func (p *PairV2) setLoadedSellOrders(orders []uint32) {
-	p.loadedSellOrders.ids = orders
-	return
-}
-func (p *PairV2) setLoadedBuyOrders(orders []uint32) {
-	p.loadedBuyOrders.ids = orders
-	return
-}
-
 func (p *PairV2) isDirtyOrder(id uint32) bool {
 	p.dirtyOrders.mu.RLock()
 	defer p.dirtyOrders.mu.RUnlock()
@@ -875,71 +837,6 @@ func (p *PairV2) loadAllOrders(immutableTree *iavl.ImmutableTree) (orders []*Lim
 	return orders
 }
 
-func (s *SwapV2) loadBuyOrders(pair *PairV2, fromOrder *Limit, limit int) []uint32 {
-	endKey := append(append(append([]byte{mainPrefix}, pair.pathOrders()...), byte(0), byte(255)), id2Bytes(math.MaxUint32)...)
-	var startKey = append(append([]byte{mainPrefix}, pair.pathOrders()...), byte(0), byte(0))
-
-	var loadedAll bool
-	ids := pair.loadedBuyOrderIDs()
-	if len(ids) != 0 && ids[len(ids)-1] == 0 {
-		loadedAll = true
-		ids = ids[: len(ids)-1 : len(ids)-1]
-	}
-
-	if fromOrder == nil && len(ids) >= limit {
-		return ids[:limit:limit]
-	}
-
-	k := 1
-	var slice []uint32
-	for i, id := range ids {
-		if id == fromOrder.ID() {
-			if len(ids[i+1:]) < limit {
-				slice = append(slice, ids[i+1:]...)
-				k += len(ids[i+1:])
-				fromOrder = pair.order(ids[len(ids)-1])
-				break
-			}
-
-			return ids[i+1 : i+limit+1 : i+limit+1]
-		}
-	}
-
-	if loadedAll {
-		return append(slice, 0)
-	}
-
-	if fromOrder != nil {
-		startKey = pricePath(pair.PairKey, fromOrder.OldSortPrice(), fromOrder.id+1, false) // todo: tests OldSortPrice
-	}
-
-	var has bool
-	s.immutableTree().IterateRange(startKey, endKey, true, func(key []byte, _ []byte) bool {
-		id := binary.BigEndian.Uint32(key[len(key)-4:])
-
-		l, ok := pair.orders.list[id]
-		if ok && l == nil {
-			return false
-		}
-
-		has = true
-		if k > limit {
-			return true
-		}
-
-		slice = append(slice, id)
-		k++
-		return false
-	})
-
-	if !has || len(slice) < limit {
-		slice = append(slice, 0)
-	}
-
-	pair.setLoadedBuyOrders(append(ids, slice...))
-	return slice
-}
-
 func (s *SwapV2) GetOrder(id uint32) *Limit {
 	order := s.loadOrder(id)
 	if order == nil {
@@ -987,133 +884,100 @@ func (s *SwapV2) loadOrder(id uint32) *Limit {
 	return order
 }
 
-func (s *SwapV2) loadSellOrders(pair *PairV2, fromOrder *Limit, limit int) []uint32 {
-	startKey := append(append([]byte{mainPrefix}, pair.pathOrders()...), byte(1), byte(0))
-	var endKey = append(append(append([]byte{mainPrefix}, pair.pathOrders()...), byte(1), byte(255)), id2Bytes(math.MaxUint32)...)
+func (s *SwapV2) loadBuyOrders(pair *PairV2, n int) ([]uint32, bool) {
+	return s.loadDiskOrders(pair, pair.loadedBuyOrders, false, n)
+}
 
-	var loadedAll bool
-	ids := pair.loadedSellOrderIDs()
-	if len(ids) != 0 && ids[len(ids)-1] == 0 {
-		loadedAll = true
-		ids = ids[: len(ids)-1 : len(ids)-1]
+func (s *SwapV2) loadSellOrders(pair *PairV2, n int) ([]uint32, bool) {
+	return s.loadDiskOrders(pair, pair.loadedSellOrders, true, n)
+}
+
+// loadDiskOrders returns the ids of one side of the pair in the order they are stored on disk (best first):
+// at least the first n of them, or all of them (then the second result is true).
+// The ids are cached in loaded and read page by page; the cache is dropped when the orders of the pair are committed.
+func (s *SwapV2) loadDiskOrders(pair *PairV2, loaded *limits, sale bool, n int) ([]uint32, bool) {
+	if loaded.all || len(loaded.ids) >= n {
+		return loaded.ids, loaded.all
+	}
+	if n < 2*len(loaded.ids) {
+		n = 2 * len(loaded.ids) // pages grow, a deep book is not read id by id
 	}
 
-	if fromOrder == nil && len(ids) >= limit {
-		return ids[:limit:limit]
+	saleByte := byte(0)
+	if sale {
+		saleByte = 1
 	}
-	k := 1
-	var slice []uint32
-	for i, id := range ids {
-		if id == fromOrder.ID() {
-			if len(ids[i+1:]) < limit {
-				slice = append(slice, ids[i+1:]...)
-				k += len(ids[i+1:])
-				fromOrder = pair.order(ids[len(ids)-1])
-				break
-			}
-
-			return ids[i+1 : i+limit+1 : i+limit+1]
-		}
+	path := append(append([]byte{mainPrefix}, pair.pathOrders()...), saleByte)
+	startKey := append(path[:len(path):len(path)], 0)
+	endKey := append(append(path[:len(path):len(path)], 255), id2Bytes(math.MaxUint32)...)
+	// sale orders are stored by ascending price and are read backwards, purchase orders forwards
+	if loaded.next != nil && sale {
+		endKey = loaded.next
+	} else if loaded.next != nil {
+		startKey = append(loaded.next[:len(loaded.next):len(loaded.next)], 0)
 	}
 
-	if loadedAll {
-		return append(slice, 0)
-	}
-
-	if fromOrder != nil {
-		endKey = pricePath(pair.PairKey, fromOrder.OldSortPrice(), fromOrder.id, true)
-	}
-
-	var has bool
-	s.immutableTree().IterateRange(startKey, endKey, false, func(key []byte, value []byte) bool {
-		id := math.MaxUint32 - binary.BigEndian.Uint32(key[len(key)-4:])
-
-		l, ok := pair.orders.list[id]
-		if ok && l == nil {
-			return false
-		}
-
-		has = true
-		if k > limit {
+	loaded.all = !s.immutableTree().IterateRange(startKey, endKey, !sale, func(key []byte, _ []byte) bool {
+		if len(loaded.ids) >= n {
 			return true
 		}
-
-		slice = append(slice, id)
-		k++
+		id := binary.BigEndian.Uint32(key[len(key)-4:])
+		if sale {
+			id = math.MaxUint32 - id
+		}
+		loaded.ids = append(loaded.ids, id)
+		loaded.next = append([]byte{}, key...)
 		return false
 	})
 
-	if !has || len(slice) < limit {
-		slice = append(slice, 0)
-	}
-
-	pair.setLoadedSellOrders(append(ids, slice...))
-	return slice
+	return loaded.ids, loaded.all
 }
 
-func (p *PairV2) updateDirtyOrders(list []uint32, lower bool) (orders []uint32, delCount int) {
-	var limits []*Limit
-	for _, orderID := range list {
-		if _, ok := p.deletedSellOrderIDs().list[orderID]; ok {
-			delCount++
+// sellOrdersList builds the sorted list of the ids of the sell orders: at least the first n of them,
+// or all of them followed by 0.
+// It merges the orders on disk (they are sorted) without those changed or deleted since the last commit
+// with the orders placed or changed since the last commit, sorted by their current price and id.
+func (p *PairV2) sellOrdersList(n int) []uint32 {
+	changed, deleted := p.unsortedSellOrderIDs().list, p.deletedSellOrderIDs().list
+
+	direction := p.DirectionSortPrice()
+	before := func(a, b *Limit) bool {
+		if cmp := a.sortPrice().Cmp(b.sortPrice()); cmp != 0 {
+			return cmp != direction
+		}
+		return a.id < b.id
+	}
+	mem := make([]*Limit, 0, len(changed))
+	for id := range changed {
+		mem = append(mem, p.order(id))
+	}
+	sort.Slice(mem, func(i, j int) bool { return before(mem[i], mem[j]) })
+
+	// n of the ids on disk remain after skipping the changed and deleted ones, or all are loaded
+	disk, all := p.loadSellOrders(p, n+len(changed)+len(deleted))
+
+	list := make([]uint32, 0, len(disk)+len(mem)+1)
+	for _, id := range disk {
+		if _, ok := changed[id]; ok {
 			continue
 		}
-		if _, ok := p.unsortedSellOrderIDs().list[orderID]; ok {
-			delCount++
+		if _, ok := deleted[id]; ok {
 			continue
 		}
-
-		order := p.order(orderID)
-		limits = append(limits, order)
-		if order == nil {
-			break
+		for len(mem) != 0 && before(mem[0], p.order(id)) {
+			list = append(list, mem[0].id)
+			mem = mem[1:]
 		}
+		list = append(list, id)
 	}
-
-	cmp := p.DirectionSortPrice()
-	if !lower {
-		cmp *= -1
+	if !all {
+		// the place of the remaining changed orders among the orders not loaded yet is not known
+		return list
 	}
-
-	var dirties []*Limit
-	for orderID := range p.unsortedSellOrderIDs().list {
-		dirty := p.order(orderID)
-		dirties = append(dirties, dirty)
+	for _, order := range mem {
+		list = append(list, order.id)
 	}
-
-	sort.Slice(dirties, func(i, j int) bool {
-		a := dirties[j]
-		b := dirties[i]
-		switch a.sortPrice().Cmp(b.sortPrice()) {
-		case cmp:
-			return true
-		case 0:
-			return a.id < b.id
-		default:
-			return false
-		}
-	})
-
-	var pos int
-	for _, dirty := range dirties {
-		var isSet bool
-		limits, isSet, pos = addToList(limits, dirty, cmp, pos)
-		if isSet {
-			delCount--
-			delete(p.unsortedSellOrderIDs().list, dirty.id)
-		} else {
-			break
-		}
-	}
-
-	for _, order := range limits {
-		if order == nil {
-			return append(orders, 0), delCount
-		}
-		orders = append(orders, order.id)
-	}
-
-	return orders, delCount
+	return append(list, 0)
 }
 
 func (p *PairV2) OrderSellByIndex(index int) *Limit {
@@ -1123,6 +987,8 @@ func (p *PairV2) OrderSellByIndex(index int) *Limit {
 	return p.orderSellByIndex(index)
 }
 
+// orderSellLoadToIndex returns the sell order at the position index of the sorted list.
+// The list is a cache: it is dropped when an order of the pair changes (MarkDirtyOrders) and when orders are committed.
 func (p *PairV2) orderSellLoadToIndex(index int) *Limit {
 	p.unsortedSellOrderIDs().mu.Lock()
 	defer p.unsortedSellOrderIDs().mu.Unlock()
@@ -1131,96 +997,17 @@ func (p *PairV2) orderSellLoadToIndex(index int) *Limit {
 	defer p.deletedSellOrderIDs().mu.Unlock()
 
 	orders := p.sellOrderIDs()
-
-	var fromOrder *Limit
-	// если массив не пустой, то пересортировать, если есть грязные!
-	if len(orders) != 0 {
-		// если есть грязные.
-		if p.hasUnsortedSellOrders() || p.hasDeletedSellOrders() {
-			// пересортируем, что бы лист почистился и пересортировался
-
-			needLoadMore := len(p.deletedSellOrderIDs().list) - len(orders)
-			if lastI := len(orders) - 1; lastI >= 0 && orders[lastI] != 0 {
-				fromOrder = p.order(orders[lastI])
-				needLoadMore++
-			}
-			if needLoadMore >= 0 {
-				orders = append(orders, p.loadSellOrders(p, fromOrder, needLoadMore)...)
-			}
-			orders, _ = p.updateDirtyOrders(orders, true)
-			lastI := len(orders) - 1
-			// если загружены не все
-			if lastI >= 0 && orders[lastI] != 0 {
-				// проверяем есть ли среди этого массива, элемент с нужным индексом
-				if index > lastI {
-					//log.Println("b")
-					// загрузим с последнего нужное количество и отсортируем
-					fromOrder = p.order(orders[lastI])
-					loadedNextOrders := p.loadSellOrders(p, fromOrder, index-lastI)
-					resortedOrders, unsets := p.updateDirtyOrders(append(orders, loadedNextOrders...), true)
-					//resortedOrders, unsets := p.updateDirtyOrders(append(orders, loadedNextOrders...), true)
-					// проверим загружены ли все
-					lastJ := len(resortedOrders) - 1
-					if resortedOrders[lastJ] != 0 {
-						//log.Println("c")
-						// среди них не может быть использованных иначе бы они были загружены ранее,
-						// но могут быть удаленные удаленных, проверим
-						for ; index > lastJ && lastJ >= 0 && resortedOrders[lastJ] != 0 && p.hasDeletedSellOrders() && unsets > 0; lastJ = len(resortedOrders) - 1 {
-							//log.Println("d")
-							fromOrder = p.order(resortedOrders[lastI])
-							loadedNextOrders := p.loadSellOrders(p, fromOrder, index-lastI+unsets)
-							var resortLoadedNextOrders []uint32
-							resortLoadedNextOrders, unsets = p.updateDirtyOrders(loadedNextOrders, true)
-							resortedOrders = append(resortedOrders, resortLoadedNextOrders...)
-						}
-					}
-					orders = resortedOrders
-				}
-			}
-		} else {
-			// проверим количество
-			lastI := len(orders) - 1
-			// если загружены не все и их не достаточно, то подгрузить
-			if orders[lastI] != 0 && index > lastI {
-				//log.Println("e")
-				fromOrder = p.order(orders[lastI])
-				loadedNextOrders := p.loadSellOrders(p, fromOrder, index-lastI)
-				// тк нет грязных, то просто складываем
-				orders = append(orders, loadedNextOrders...)
-			}
-		}
-	} else {
-		num := index
-		for {
-			orders = append(orders, p.loadSellOrders(p, fromOrder, num+1)...)
-			num = 0
-			if p.hasUnsortedSellOrders() || p.hasDeletedSellOrders() {
-				orders, num = p.updateDirtyOrders(orders, true)
-			}
-			if num <= 0 {
-				break
-			}
-			lenOrders := len(orders)
-			if lenOrders != 0 && orders[lenOrders-1] != 0 {
-				fromOrder = p.order(orders[lenOrders-1])
-			} else {
-				break
-			}
-		}
+	// a complete list ends with 0
+	if last := len(orders) - 1; index > last && (last < 0 || orders[last] != 0) {
+		orders = p.sellOrdersList(2*index + 16)
+		p.setSellOrders(orders)
 	}
 
-	p.setSellOrders(orders)
-	i := len(orders) - 1
-	if i >= 0 && orders[i] == 0 {
-		i--
-	}
-	if i < index {
+	if index >= len(orders) || orders[index] == 0 {
 		return nil
 	}
 
-	order := p.order(orders[index])
-
-	return order
+	return p.order(orders[index])
 }
 
 func (p *PairV2) orderSellByIndex(index int) *Limit {
@@ -1378,15 +1165,11 @@ func (p *PairV2) AddLastSwapStepWithOrders(amount0In, amount1Out *big.Int, buy b
 			mu:   sync.RWMutex{},
 			list: deletedBuyOrders,
 		},
-		markDirtyOrders: p.markDirtyOrders,
-		loadBuyOrders:   p.loadBuyOrders,
-		loadSellOrders:  p.loadSellOrders,
-		loadedSellOrders: &limits{
-			ids: p.loadedSellOrders.ids[:len(p.loadedSellOrders.ids):len(p.loadedSellOrders.ids)],
-		},
-		loadedBuyOrders: &limits{
-			ids: p.loadedBuyOrders.ids[:len(p.loadedBuyOrders.ids):len(p.loadedBuyOrders.ids)],
-		},
+		markDirtyOrders:  p.markDirtyOrders,
+		loadBuyOrders:    p.loadBuyOrders,
+		loadSellOrders:   p.loadSellOrders,
+		loadedSellOrders: p.loadedSellOrders.clone(),
+		loadedBuyOrders:  p.loadedBuyOrders.clone(),
 		unsortedDirtyBuyOrders: &orderDirties{
 			mu:   sync.RWMutex{},
 			list: unsortedDirtyBuyOrders,
